@@ -228,22 +228,30 @@ def run(repo: Repo, chk: Check, thorough: bool = False) -> None:
                'lost - an inventory whose compressed part is smaller than the chunk (any small project) yields no entry at all after one damaged byte, larger ones lose dozens of '
                'usable lines in front of the damage', repo.loc(zf.mod, c))
     # stage 2, decode: a line that is not UTF-8 must not take the other lines with it
-    dec = [c for c in calls_in(gp) if call_name(c) == 'decode']
+    # (_getPayload together with the private helpers of its module / class it hands the data to: `return _decodeUsableLines(decompressed)`)
+    units = [gp] + [g for g in repo.funcs.values() if g.mod is gp.mod and g is not gp and g.name.startswith('_') and not g.name.startswith('__') and g.outer is None and
+                    (g.cls is None or g.cls is gp.cls) and any(call_name(c) == g.name for c in calls_in(gp))]
+    unit_of = {id(n): g for g in units for n in g.walk()}
+    all_nodes = [n for g in units for n in g.walk()]
+
+    def _trys(c: ast.AST) -> list:
+        return enclosing_trys(c, unit_of[id(c)].node)
+    dec = [c for g in units for c in calls_in(g) if call_name(c) == 'decode']
     if not dec:
         raise AnalysisError('R17.3: no decode() call in _getPayload')
     hs = []
     for c in dec:
-        for t in enclosing_trys(c, gp.node):
+        for t in _trys(c):
             h = _handles(t, 'UnicodeDecodeError')
             if h is not None and h not in hs:
                 hs.append(h)
     # (the per-line handlers nested in a reporting handler may drop their line silently: the problem has been reported once)
     okh = bool(hs) and all(not reraises(h) for h in hs) and \
         any(any(isinstance(n, ast.Call) and call_name(n) == 'error' for st in h.body for n in ast.walk(st)) for h in hs) and \
-        all(any(_handles(t, 'UnicodeDecodeError') is not None for t in enclosing_trys(c, gp.node)) for c in dec)
+        all(any(_handles(t, 'UnicodeDecodeError') is not None for t in _trys(c)) for c in dec)
     chk.ob('R17.3', f'{READER}._getPayload :: decode failure is caught and reported', okh,
            'except UnicodeError: self.error(...)' if okh else 'a failing decode() is not caught / not reported', repo.loc(gp.mod, dec[0]))
-    linewise = any(isinstance(n, (ast.For, ast.ListComp, ast.GeneratorExp)) and any(isinstance(x, ast.Call) and call_name(x) == 'decode' for x in ast.walk(n)) for n in gp.walk()) or \
+    linewise = any(isinstance(n, (ast.For, ast.ListComp, ast.GeneratorExp)) and any(isinstance(x, ast.Call) and call_name(x) == 'decode' for x in ast.walk(n)) for n in all_nodes) or \
         any(isinstance(k.value, ast.Constant) and k.value.value in ('replace', 'ignore', 'backslashreplace', 'surrogateescape') for c in dec for k in c.keywords) or \
         any(isinstance(a, ast.Constant) and a.value in ('replace', 'ignore', 'backslashreplace', 'surrogateescape') for c in dec for a in c.args[1:])
     chk.ob('R17.3', f'{READER}._getPayload :: an undecodable line does not discard the others', linewise,
@@ -257,31 +265,47 @@ def run(repo: Repo, chk: Check, thorough: bool = False) -> None:
         # the inflated data comes back from the helper that holds the inflate stage: `data, complete = _helper(payload)`
         infl_vars |= {x.id for n in gp.walk() if isinstance(n, ast.Assign) and isinstance(n.value, ast.Call) and call_name(n.value) == zf.name
                       for t in n.targets for x in (t.elts if isinstance(t, ast.Tuple) else [t]) if isinstance(x, ast.Name)}
-    for n in gp.walk():
+    for n in all_nodes:
         if isinstance(n, (ast.For, ast.comprehension)) and any(isinstance(x, ast.Call) and call_name(x) == 'decode' for x in ast.walk(n if isinstance(n, ast.For) else getattr(n, '_parent', n))):
             srcn = [x.id for x in ast.walk(n.iter) if isinstance(x, ast.Name)]
             if not srcn:
                 continue
+            g_n = unit_of[id(n)]
+            if g_n is not gp:
+                # the loop lives in a helper and runs over its parameter: what counts is what _getPayload passes for it
+                gpar = [p_.arg for p_ in g_n.params() if p_.arg not in ('self', 'cls')]
+                passed = []
+                for v in srcn:
+                    if v in gpar:
+                        for cc in calls_in(gp):
+                            if call_name(cc) == g_n.name and gpar.index(v) < len(cc.args):
+                                passed += [x.id for x in ast.walk(cc.args[gpar.index(v)]) if isinstance(x, ast.Name)]
+                    else:
+                        passed.append(v)
+                srcn = passed
             okv = bool(infl_vars) and all(v in infl_vars for v in srcn if v not in ('bytes', 'str'))
             chk.ob('R17.3', f'{READER}._getPayload :: the per-line fallback splits the inflated data', okv,
                    f'iterates {norm(n.iter)[:40]}' if okv else
                    f'`{norm(n.iter)[:50]}` is not the result of decompress(): the fallback decodes lines of the still-compressed payload, so one undecodable line again '
                    'loses every usable line of the inventory', repo.loc(gp.mod, n.iter))
     # header skipping: `parts = data.split(b"\\n", 1)` has ONE element when there is no newline (a download cut inside the header)
-    for n in gp.walk():
+    cfgs_u = {g.qn: (cfgp if g is gp else CFG(g)) for g in units}
+    for n in all_nodes:
         if isinstance(n, ast.Subscript) and isinstance(n.value, ast.Name) and isinstance(n.slice, ast.Constant) and isinstance(n.slice.value, int) and n.slice.value >= 1 and \
                 isinstance(n.ctx, ast.Load):
-            origin = [a.value for a in gp.walk() if isinstance(a, ast.Assign) and any(isinstance(t, ast.Name) and t.id == n.value.id for t in a.targets)]
+            g_n = unit_of[id(n)]
+            cfgn = cfgs_u[g_n.qn]
+            origin = [a.value for a in g_n.walk() if isinstance(a, ast.Assign) and any(isinstance(t, ast.Name) and t.id == n.value.id for t in a.targets)]
             if not any(isinstance(v, ast.Call) and call_name(v) in ('split', 'rsplit') for v in origin):
                 continue
-            st_n = cfgp.stmt_of(n)
-            facts = cfgp.dominating_tests(st_n)
+            st_n = cfgn.stmt_of(n)
+            facts = cfgn.dominating_tests(st_n)
             lenok = any(isinstance(t, ast.Compare) and len(t.ops) == 1 and isinstance(t.left, ast.Call) and call_name(t.left) == 'len' and t.left.args and
                         norm(t.left.args[0]) == n.value.id and isinstance(t.comparators[0], ast.Constant) and
                         ((isinstance(t.ops[0], ast.NotEq) and not pol and t.comparators[0].value > n.slice.value) or
                          (isinstance(t.ops[0], ast.Eq) and pol and t.comparators[0].value > n.slice.value) or
                          (isinstance(t.ops[0], (ast.Gt, ast.GtE)) and pol)) for t, pol in facts)
-            intry = any(_handles(t, 'IndexError') is not None for t in enclosing_trys(n, gp.node))
+            intry = any(_handles(t, 'IndexError') is not None for t in _trys(n))
             chk.ob('R17.3', f'{READER}._getPayload :: {norm(n)} is only read when the split produced it', lenok or intry,
                    'dominated by a length test' if lenok else 'inside try/except IndexError' if intry else
                    f'`{norm(n)}` is read without knowing that the split found a separator: data that ends inside the `#` header lines (a truncated download such as '
